@@ -7,9 +7,17 @@ let int_of_z z = match z with Z0 -> 0 | Zpos p -> int_of_pos p | Zneg p -> - (in
 let nat_s s = nat_of_int (int_of_string s)
 let ptr_s s = if s = "-" then None else Some (nat_s s)
 (* names: unnamed, "a","b","c", L = a text of 21 characters (does not fit the node, nor the node a clone gets),
-   B = the binary identifier (no charset, one byte 'a'), M = a text of 29 characters (a clone has room for it) *)
-let name_s s = nat_of_int (match s with "-" -> 0 | "a" -> 1 | "b" -> 2 | "c" -> 3 | "L" -> 4 | "B" -> 5 | "M" -> 6 | _ -> failwith "name")
-let letter n = match n with 0 -> "_" | 1 -> "a" | 2 -> "b" | 3 -> "c" | 4 -> "L" | 5 -> "B" | 6 -> "M" | _ -> "?"
+   B = the binary identifier (no charset, one byte 'a'), M = a text of 29 characters (a clone has room for it),
+   T<n> = a text of n characters *)
+(* T<n> = a text of n characters (code 100 + n): the lengths around what a node has room for *)
+let tname_n s =
+  let l = String.length s in
+  if l >= 2 && s.[0] = 'T' then (match int_of_string_opt (String.sub s 1 (l - 1)) with Some n when n >= 1 -> Some n | _ -> None)
+  else None
+let name_s s = nat_of_int (match s with "-" -> 0 | "a" -> 1 | "b" -> 2 | "c" -> 3 | "L" -> 4 | "B" -> 5 | "M" -> 6
+  | _ -> (match tname_n s with Some n -> 100 + n | None -> failwith "name"))
+let letter n = match n with 0 -> "_" | 1 -> "a" | 2 -> "b" | 3 -> "c" | 4 -> "L" | 5 -> "B" | 6 -> "M"
+  | _ -> if n > 100 then Printf.sprintf "T%d:" (n - 100) else "?"
 let order_s s = match s with "post" -> PostOrder | "pre" -> PreOrder | "in" -> InOrder | _ -> failwith "order"
 let worder_s s = match s with "level" -> None | _ -> Some (order_s s)
 let byname_s s = match s with "n" -> true | "g" -> false | _ -> failwith "g|n"
@@ -51,6 +59,8 @@ let ptrees_s s =
 let rec parse_ops t = match t with
   | [] -> []
   | "new" :: n :: v :: r -> ONew (name_s n, nat_s v) :: parse_ops r
+  (* snew: the node is made the way node_append.c makes it, mpt_node_new(length + 1); the same operation for the model *)
+  | "snew" :: n :: v :: r -> ONew (name_s n, nat_s v) :: parse_ops r
   | "after" :: p :: x :: r -> OAfter (ptr_s p, ptr_s x) :: parse_ops r
   | "before" :: p :: x :: r -> OBefore (ptr_s p, ptr_s x) :: parse_ops r
   | "add" :: f :: p :: x :: r -> OAdd (false, nat_s f, z_of_int (int_of_string p), nat_s x) :: parse_ops r
